@@ -24,10 +24,10 @@ EXHAUSTIVE = True
 RULE = (
     "option lattice: grids {(2),(5),(2,2),(3,4),(4,1),(1,4),(2,2,2),(3,2,1)} x voxel sizes {unit, dyadic anisotropic} x mass pairs "
     "{corner->corner, corner->centre, dense, sparse} x {Newton, Bregman fixed, Bregman adaptive} x 3 L1 modes x 5 mobility modes x "
-    "{(full,direct),(pressure,direct),(pressure,amg),(pressure,cg),(flux_reduced,direct)} x Anderson {0,2} x cell weight {None, 2}; "
+    "{(full,direct),(pressure,direct),(pressure,amg),(pressure,cg),(flux_reduced,direct)} x Anderson {off, depth 2, depth 2 with restart 2} x cell weight {None, 2}; every configuration is followed by a second computation (the reversed pair) on the same solver object; "
     "thorough = full product, quick = covering design in which the full (method x L1 x mobility x formulation) product is run on "
     "rotating (grid, voxel, mass, Anderson, weight) selections. Status/fault lattice: 3 grids x 2 masses x 3 methods x "
-    "{(full,direct),(pressure,amg)} x Anderson {0,2} x num_iter {1,2,3,6} x tolerances {default, 1e-10, 0}; each base run expanded by "
+    "{(full,direct),(pressure,amg)} x Anderson {off, depth 2, depth 2 restart 2} x num_iter {1,2,3,6} x tolerances {default, 1e-10, 0}; each base run expanded by "
     "its complete fault tree (each in-loop linear solve raises once). Non-trivial = run with non-zero flux; distinct = distinct "
     "configuration (+ fault schedule)."
 )
@@ -55,12 +55,12 @@ def cases(tier):
         for g in GRIDS:
             for vsk in ("unit", "aniso"):
                 for m in MASSES:
-                    for aa in (0, 2):
+                    for aa in (0, 2, -2):
                         for w in (None, 2.0):
                             out.append({"kind": "options", "shape": list(g), "vs": vsk, "mass": m, "aa": aa, "weight": w, "combos": "all"})
     else:
         # covering design: every core combination on 3 rotating environments
-        envs = list(itertools.product(GRIDS, ("unit", "aniso"), MASSES, (0, 2), (None, 2.0)))
+        envs = list(itertools.product(GRIDS, ("unit", "aniso"), MASSES, (0, 2, -2), (None, 2.0)))
         buckets = {}
         for p in range(3):
             for i, combo in enumerate(core):
@@ -73,16 +73,17 @@ def cases(tier):
         for m in ("corner-to-corner", "dense"):
             for method in METHODS:
                 for form in (("full", "direct"), ("pressure", "amg")):
-                    for aa in (0, 2):
+                    for aa in (0, 2, -2):
                         out.append({"kind": "fault", "shape": list(g), "vs": "aniso", "mass": m, "method": method, "form": list(form), "aa": aa, "num_iters": [1, 2, 3, 6] if tier == "thorough" else [1, 3, 6]})
     return out
 
 
 def opts_for(method, l1, mob, form, aa, num_iter, extra=None):
     o = {"l1_mode": l1, "mobility_mode": mob, "formulation": form[0], "linear_solver": form[1], "num_iter": num_iter, "linear_solver_options": dict(LSO)}
-    if aa:
-        o["aa_depth"] = aa
-        o["aa_restart"] = 2
+    if aa:  # aa = 2: depth 2 without restart; aa = -2: depth 2, restart every 2 iterations
+        o["aa_depth"] = abs(aa)
+        if aa < 0:
+            o["aa_restart"] = 2
     if method == "bregman-adaptive":
         o["bregman_update_every"] = 2
     if extra:
@@ -115,6 +116,15 @@ def criteria_met(method, hist, o):
 def check_run(r, res, ref, m1, m2, method, l1, form, weight, o, tagc):
     """Invariants (1)-(4) of one completed execution."""
     cond = "ill-conditioned" if res.weight_ratio > 1e8 else "well-conditioned"
+    # Anderson mixing applied after the iteration has already converged to rounding level
+    # (residual dropped by 1e-10 before the last mixing step): a class of its own, defined from
+    # the run's own convergence history
+    try:
+        h = res.info["convergence_history"].get("residual", [])
+        if o.get("aa_depth", 0) > 0 and len(h) >= 3 and h[0] > 0 and min(h[1:-1]) <= 1e-10 * h[0]:
+            cond += "/anderson-after-convergence"
+    except Exception:  # noqa: BLE001
+        pass
     fb = f"{form[0]}-{form[1]}"
     diff = ref.vol * ref.flat(np.asarray(m2) - np.asarray(m1))
     scale = max(1.0, float(np.max(np.abs(diff))))
@@ -172,13 +182,32 @@ def run_options(case, r):
         method, l1, mob, form = core[i]
         o = opts_for(method, l1, mob, form, aa, 6)
         tagc = {"shape": shape, "vs": vsk, "mass": mk, "method": method, "l1": l1, "mobility": mob, "form": form, "aa": aa, "weight": weight}
-        res = Wh.run_solver(mname(method), shape, vs, m1, m2, o, weight=weight)
+        # the same solver object is used for a second, different pair afterwards (the reversed
+        # transport): both results have to satisfy every invariant
+        res = Wh.run_solver(mname(method), shape, vs, m1, m2, o, weight=weight, then=(m2, m1))
         if res.exc is not None:
             r.fail(f"C04/usable/{mname(method)}/{form[0]}-{form[1]}/mobility={mob}", "every documented option combination runs on every supported grid", exception=repr(res.exc)[:300], stage=res.stage, cfg=tagc)
             continue
         if ref is None:
             ref = Wh.Ref(res.grid)
         check_run(r, res, ref, m1, m2, method, l1, form, weight, o, tagc)
+        sec = res.second
+        if sec is not None:
+            tag2 = dict(tagc, call="second call on the same object (reversed pair)")
+            if sec.exc is not None:
+                r.fail(f"C04/usable/{mname(method)}/{form[0]}-{form[1]}/reused-object", "a solver object can be used for a second pair", exception=repr(sec.exc)[:300], cfg=tag2)
+            else:
+                check_run(r, sec, ref, m2, m1, method, l1, form, weight, o, tag2)
+                r.count("solver_runs")
+                # ... and it must be the result a fresh solver object gives for that pair (a
+                # flux "for this pair" cannot depend on the pair computed before)
+                fresh = Wh.run_solver(mname(method), shape, vs, m2, m1, o, weight=weight)
+                if fresh.exc is None and np.all(np.isfinite(fresh.flux)) and np.all(np.isfinite(sec.flux)):
+                    tolr = 0.0 if form[1] == "direct" else 1e-9
+                    sc = max(1.0, float(np.max(np.abs(fresh.flux))))
+                    same = abs(sec.distance - fresh.distance) <= tolr * max(1.0, abs(fresh.distance)) and float(np.max(np.abs(sec.flux - fresh.flux))) <= tolr * sc
+                    r.check(same, f"C04/reused-object-equals-fresh/{mname(method)}/{form[0]}-{form[1]}", "the second computation on a solver object returns what a fresh object returns for that pair", d_reused=sec.distance, d_fresh=fresh.distance, cfg=tag2)
+                    r.count("solver_runs")
         if np.any(res.flux != 0):
             r.nontriv(tagc)
         r.outcome((tagc, round(float(res.distance), 9)))
